@@ -431,8 +431,13 @@ def check(prop, tier):
                 log('KNOWN-FINDING: property=%s %s %s' % (prop, v.get('role'), kf[0]['text']))
             else:
                 violations.append(v)
-        broken += r.get('broken', [])
-        undecided += r.get('undecided', [])
+        if e2.get('auxiliary'):
+            # second engine on a property that E1 decides completely: a query that cannot be decided there (or an encoding
+            # that cannot be validated on this tree) is reported, not counted; a reproduced violation still is one
+            notes += ['(auxiliary E2 part) ' + u for u in r.get('undecided', []) + r.get('broken', [])]
+        else:
+            broken += r.get('broken', [])
+            undecided += r.get('undecided', [])
         notes += r.get('notes', [])
 
     return finish(prop, tier, seed, t0, parts=parts, violations=violations, broken=broken, undecided=undecided, notes=notes)
